@@ -35,7 +35,7 @@ def build_module(shared, imported=False):
     if imported:
         m.imports.append(('env', 'shared_mem', 'memory', (1, 1, True)))
     else:
-        m.mems.append((1, 1, True) if shared else (1, 1, False))
+        m.mems.append((1, 48, True) if shared else (1, 1, False))   # the shared memory has room to grow: another thread grows it during the stress
     m.exports.append(('mem', 'memory', 0))
     names = []
     for t, w in FAMILIES:
@@ -80,6 +80,7 @@ def build_module(shared, imported=False):
     m.ctx_names = ctx
     m.add_func([], [], [], [('atomic.fence',)], export='fence')
     m.add_func([I32, I32], [I32], [], [('local.get', 0), ('local.get', 1), ('i32.atomic.rmw.add', 2, 16)], export='add_off16')
+    m.add_func([I32], [I32], [], [('local.get', 0), ('memory.grow',)], export='grow')
     return m, names
 
 
